@@ -61,9 +61,17 @@ contract(M, '_copy_nfa_delta', {'delta': DT, 'N': 'NFA', 'epsilon': 'Symbol'}, r
              'all(implies((q, b) in delta, (q, b) in old(delta) or (q in N.Q and (b in N.Sigma or b == epsilon))) for q in atoms() for b in atoms())']}},
          theories=[], props=['C18', 'C19', 'C06'])
 
+_MI = 'gambatools.identifier_generator'
+contract(_MI, 'IdentifierGenerator.__init__', {'self': 'IdGen', 'index': 'Int'}, returns='None', modifies=['self'], defaults={'index': '0'},
+         ensures=['self.index == index'], theories=[], props=['C18'])
+contract(_MI, 'IdentifierGenerator.generate', {'self': 'IdGen', 'hint': 'Atom'}, returns='Atom', modifies=['self'],
+         ensures=['self.index == old(self.index) + 1'], theories=['naming'], props=['C18'],
+         note='the name returned is hint followed by the old counter; the callers only need that the counter advances')
+
 for _v, _t in (('default', 'None'), ('given', 'IdGen')):
-    contract(M, '_fresh_nfa_state', {'Q': 'Set[State]', 'id_generator': _t}, returns='State', variant=_v, verify=False, modifies=['id_generator'], ensures=['result not in Q'],
-             theories=[], props=['C18'], note='name generator (object with a counter, loop until unused): assumed here, checked by the bounded stand-in with clashing names and call histories')
+    contract(M, '_fresh_nfa_state', {'Q': 'Set[State]', 'id_generator': _t}, returns='State', variant=_v, modifies=['id_generator'], ensures=['result not in Q'],
+             loops={1: {'invariant': []}},
+             theories=['naming'], props=['C18'], note='partial correctness: the loop only exits with an unused name; termination (finitely many names are taken) is exercised by the bounded stand-in with clashing names and call histories')
 
 _OPS = ['nfa_wf(result)', 'result.epsilon == N1.epsilon']
 def _step_from(Nn):
